@@ -45,6 +45,8 @@ func maskType(m []byte) string {
 	switch {
 	case len(m) == 0:
 		return "empty"
+	case len(m) >= 32 && len(m)%16 == 0 && bytes.Equal(m[:16], m[16:32]):
+		return "repeated-per-label"
 	case len(m) > 1:
 		return "burst"
 	case m[0] == 0xff:
@@ -485,6 +487,26 @@ func drawCorruption(t *rapid.T, rep Reply, err error, focus string) Corruption {
 			}
 			c.Off = sg.Start + 16*idx + pos
 			c.Mask = drawMask(t)
+			if nl-idx >= 2 && uni(t, 3, "repeated") == 0 {
+				// The same damage on 2-4 consecutive labels.
+				k := 2 + uni(t, min(3, nl-idx-1), "repeat")
+				pat := make([]byte, 16)
+				switch uni(t, 3, "pattern") {
+				case 0:
+					for i := range pat {
+						pat[i] = 0xff
+					}
+				case 1:
+					pat[0] = byte(1 + uni(t, 255, "pat0"))
+					for i := 1; i < 16; i++ {
+						pat[i] = byte(uniBits(t, 8, "pat"))
+					}
+				default:
+					pat[0] = byte(1 + uni(t, 255, "pat0"))
+				}
+				c.Off = sg.Start + 16*idx
+				c.Mask = strings.Repeat(hex.EncodeToString(pat), k)
+			}
 			return c
 		}
 	case usable && focus == "evalarg":
@@ -721,6 +743,21 @@ func TestEnumerate(t *testing.T) {
 						run["80"] = true
 					case 15:
 						run["01"] = true
+					}
+				}
+				// Returned output labels: the same damage on two or four
+				// whole labels (inverted labels), which an aggregated
+				// validity check could let cancel.
+				if kind == "output-labels" && st >= 0 && (off-st)%16 == 0 {
+					for _, nl := range []int{2, 4} {
+						if kindAt(rep.Layout, dir, off+16*nl-1) != kind {
+							continue
+						}
+						m := strings.Repeat("ff", 16*nl)
+						masks = append(masks, m)
+						if off == st || off == st+16 {
+							run[m] = true
+						}
 					}
 				}
 				// Streaming: the wire id the evaluator returns for a result
